@@ -187,6 +187,24 @@ type vfNoChecker struct{}
 // Check implements the [filtering.Checker] interface for vfNoChecker.
 func (vfNoChecker) Check(_ string) (block bool, err error) { return false, nil }
 
+// vfHostChecker is a hash-prefix checker double that blocks the listed hosts
+// and their sub-domains (the real checker also looks at the parent domains).
+type vfHostChecker struct{ hosts []string }
+
+// Check implements the [filtering.Checker] interface for vfHostChecker.
+func (c vfHostChecker) Check(host string) (block bool, err error) {
+	host = strings.ToLower(strings.TrimSuffix(host, "."))
+	for _, h := range c.hosts {
+		if host == h || strings.HasSuffix(host, "."+h) {
+			return true, nil
+		}
+	}
+
+	return false, nil
+}
+
+func slicesClone(ss []string) (out []string) { return append([]string(nil), ss...) }
+
 // vfListConf is one filter list of a world.
 type vfListConf struct {
 	Rules   []string
@@ -250,8 +268,22 @@ type vfWorldConf struct {
 	// WithSafeSearch configures the default safe-search service as home does.
 	WithSafeSearch bool
 
+	// SafeBrowsingEnabled and ParentalEnabled are the global switches; SBHosts
+	// and PCHosts are what the checker doubles of the two services block.
+	SafeBrowsingEnabled bool
+	ParentalEnabled     bool
+	SBHosts             []string
+	PCHosts             []string
+
 	// SafeFS are the safe patterns for local filter-list files.
 	SafeFS []string
+	// LocalListURLs gives every filter list a local file as its source (and
+	// allows that directory), so that the lists can be re-read at run time.
+	LocalListURLs bool
+
+	// ConfigModified, if set, is the callback every module gets for "the
+	// configuration changed, save it".
+	ConfigModified func()
 
 	// HTTPRegister, if set, receives the handler registrations of all modules.
 	HTTPRegister func(method, url string, handler http.HandlerFunc)
@@ -273,6 +305,9 @@ type vfWorld struct {
 	// listIDs maps the filter list position to its ID: block lists first.
 	blockIDs []int
 	allowIDs []int
+	// blockURLs and allowURLs are the sources of the lists.
+	blockURLs []string
+	allowURLs []string
 }
 
 // vfFullWeek is the all-week pause schedule in UTC; vfEmptyWeek pauses never.
@@ -347,6 +382,16 @@ func vfNewWorld(c *vfWorldConf) (w *vfWorld, err error) {
 				URL:     fmt.Sprintf("https://lists.vf.invalid/%s/%d.txt", kind, id),
 				Name:    fmt.Sprintf("%s %d", kind, id),
 			}
+			if c.LocalListURLs {
+				y.URL = filepath.Join(dir, "src", fmt.Sprintf("%s-%d.txt", kind, id))
+				werr = os.MkdirAll(filepath.Dir(y.URL), 0o755)
+				if werr == nil {
+					werr = os.WriteFile(y.URL, []byte(text), 0o644)
+				}
+				if werr != nil {
+					return nil, nil, fmt.Errorf("VERIF-INCONCLUSIVE write list source: %w", werr)
+				}
+			}
 			y.ID = rulelist.URLFilterID(id)
 			ys = append(ys, y)
 		}
@@ -363,9 +408,23 @@ func vfNewWorld(c *vfWorldConf) (w *vfWorld, err error) {
 	if err != nil {
 		return nil, err
 	}
+	for _, y := range blockY {
+		w.blockURLs = append(w.blockURLs, y.URL)
+	}
+	for _, y := range allowY {
+		w.allowURLs = append(w.allowURLs, y.URL)
+	}
+	safeFS := c.SafeFS
+	if c.LocalListURLs {
+		safeFS = append(slicesClone(safeFS), filepath.Join(dir, "src", "*"))
+	}
 
 	logger := slogutil.NewDiscardLogger()
 	ctx := context.Background()
+	confModified := c.ConfigModified
+	if confModified == nil {
+		confModified = func() {}
+	}
 
 	applyClient := func(_ string, _ netip.Addr, _ *filtering.Settings) {}
 	var clientsContainer ClientsContainer = EmptyClientsContainer{}
@@ -410,7 +469,7 @@ func vfNewWorld(c *vfWorldConf) (w *vfWorld, err error) {
 		BlockingIPv6:            c.BlockingIPv6,
 		ApplyClientFiltering:    applyClient,
 		BlockedServices:         &filtering.BlockedServices{Schedule: sched, IDs: c.ServiceIDs},
-		ConfigModified:          func() {},
+		ConfigModified:          confModified,
 		HTTPRegister:            c.HTTPRegister,
 		HTTPClient:              &http.Client{Timeout: time.Second},
 		DataDir:                 dir,
@@ -419,7 +478,7 @@ func vfNewWorld(c *vfWorldConf) (w *vfWorld, err error) {
 		Filters:                 blockY,
 		WhitelistFilters:        allowY,
 		UserRules:               c.UserRules,
-		SafeFSPatterns:          c.SafeFS,
+		SafeFSPatterns:          safeFS,
 		BlockedResponseTTL:      ttl,
 		FilteringEnabled:        c.FilteringEnabled,
 		ProtectionEnabled:       c.ProtectionEnabled,
@@ -430,6 +489,14 @@ func vfNewWorld(c *vfWorldConf) (w *vfWorld, err error) {
 	// hash-prefix checkers that never block (the real ones need the network)
 	fconf.SafeBrowsingChecker = vfNoChecker{}
 	fconf.ParentalControlChecker = vfNoChecker{}
+	if len(c.SBHosts) > 0 {
+		fconf.SafeBrowsingChecker = vfHostChecker{hosts: c.SBHosts}
+	}
+	if len(c.PCHosts) > 0 {
+		fconf.ParentalControlChecker = vfHostChecker{hosts: c.PCHosts}
+	}
+	fconf.SafeBrowsingEnabled = c.SafeBrowsingEnabled
+	fconf.ParentalEnabled = c.ParentalEnabled
 	fconf.SafeBrowsingBlockHost = "standard-block.dns.adguard.com"
 	fconf.ParentalBlockHost = "family-block.dns.adguard.com"
 
@@ -491,7 +558,7 @@ func vfNewWorld(c *vfWorldConf) (w *vfWorld, err error) {
 			Logger:            logger,
 			Ignored:           qIgn,
 			Anonymizer:        w.anon,
-			ConfigModified:    func() {},
+			ConfigModified:    confModified,
 			HTTPRegister:      c.HTTPRegister,
 			FindClient:        findClient,
 			BaseDir:           dir,
@@ -511,7 +578,7 @@ func vfNewWorld(c *vfWorldConf) (w *vfWorld, err error) {
 		}
 		w.stats, err = stats.New(stats.Config{
 			Logger:            logger,
-			ConfigModified:    func() {},
+			ConfigModified:    confModified,
 			ShouldCountClient: shouldCount,
 			HTTPRegister:      c.HTTPRegister,
 			Ignored:           sIgn,
@@ -554,7 +621,7 @@ func vfNewWorld(c *vfWorldConf) (w *vfWorld, err error) {
 			BlockedHosts:      c.BlockedHosts,
 			CacheSize:         c.CacheSize,
 		},
-		ConfigModified:  func() {},
+		ConfigModified:  confModified,
 		HTTPRegister:    c.HTTPRegister,
 		UpstreamTimeout: time.Second,
 		ServePlainDNS:   true,
